@@ -13,7 +13,8 @@ EXPLANATION = (
     "documented sources; (R01.3) the id counter is only ever incremented by one, a fresh id is taken under the "
     "same write access as the increment, and every track added to the store carries an id drawn from that counter; "
     "(R01.4) each record is read back from the store under the id chosen in that iteration (new id or winner). "
-    "(R01.8) a track is awarded to at most one detection per call: the best-fit claim set records awarded tracks, the positional assignment is one-to-one; (R01.7) who-may-write rows for histories and track length.")
+    "(R01.8) a track is awarded to at most one detection per call: the best-fit claim set records awarded tracks, the positional assignment is one-to-one; (R01.7) who-may-write rows for histories and track length."
+    " (R01.9) own coverage of the length and echo clauses: optimize() performs exactly one history step per detection (track_length += 1), and the box make_prediction reports - the one kept for the next association and echoed for a continued track - is the conversion of the updated filter state with nothing but the observation's confidence written afterwards.")
 NOT_DECIDED = ["that two detections never share a track within one call (follows from the assignment algorithms: "
                "C02 R02.2 / C17 R17.4 decide the structural part)", "concrete boxes and epochs for concrete inputs"]
 ASSUMPTIONS = ["std iterators preserve order as documented", "rustc nightly MIR construction", "panics out of scope"]
